@@ -1,4 +1,158 @@
 import OdxVerif.Common.Sexp
-/-! driver stub for the compu family (to be written) -/
-open OdxVerif
-def main : IO Unit := driverMain fun _ => "(not-implemented)"
+import OdxVerif.Model.Compu
+/-! line-protocol driver for the compu-method model (properties C07, C03).
+
+    request  `(compu (cat LINEAR) (ity A_UINT32) (pty A_FLOAT64) (i2p (scales <scale>…) (default <val>)?) (p2i …)?
+               (q (i2p <val>) (p2i <val>) (vi <val>) (vp <val>) …))`
+    scale    `(scale (lo (<CLOSED|OPEN|INFINITE|none> <val|none>))? (hi …)? (inv <val>)? (const <val>)? (num r…)? (den r…)?)`
+    val      `(i -5)` | `(f 5/2)` | `(s <hex of utf-8, "-" if empty>)`;  r = `n/d` or `n`
+    reply    `(r <res>…)`, res = `(ok <val>)` | `(ok t)` | `(ok f)` | `(err decode|encode|odx|foreign)`;
+             `(build (err <class>))` when the constructor rejects the description.
+    Format produced/consumed by harness/compu_lib.py. -/
+open OdxVerif OdxVerif.Compu
+
+def parseRat (s : String) : Option Rat :=
+  match s.splitOn "/" with
+  | [n] => n.toInt?.map fun z => (z : Rat)
+  | [n, d] => do
+    let z ← n.toInt?
+    let k ← d.toNat?
+    if k = 0 then none else pure (mkRat z k)
+  | _ => none
+
+def utf8Decode? (bs : Bytes) : Option String :=
+  let ba : ByteArray := ⟨(bs.map fun b => b.toUInt8).toArray⟩
+  String.fromUTF8? ba
+
+def parseVal : Sexp → Option Val
+  | .list [.atom "i", .atom n] => n.toInt?.map Val.int
+  | .list [.atom "f", .atom q] => (parseRat q).map Val.flt
+  | .list [.atom "s", .atom h] => do
+    let bs ← bytesOfHex? h
+    let s ← utf8Decode? bs
+    pure (Val.str s)
+  | _ => none
+
+def parseDType (s : String) : Option DType :=
+  match s with
+  | "A_INT32" => some .int32
+  | "A_UINT32" => some .uint32
+  | "A_FLOAT32" => some .float32
+  | "A_FLOAT64" => some .float64
+  | "A_UNICODE2STRING" | "A_UTF8STRING" | "A_ASCIISTRING" => some .str
+  | _ => none
+
+def parseCat (s : String) : Option Cat :=
+  match s with
+  | "IDENTICAL" => some .identical
+  | "LINEAR" => some .linear
+  | "SCALE-LINEAR" => some .scaleLinear
+  | "TAB-INTP" => some .tabIntp
+  | "RAT-FUNC" => some .ratFunc
+  | "SCALE-RAT-FUNC" => some .scaleRatFunc
+  | "TEXTTABLE" => some .textTable
+  | "COMPUCODE" => some .compuCode
+  | _ => none
+
+def parseLimit : Sexp → Option Limit
+  | .list [.atom t, v] => do
+    let it ← match t with
+      | "none" => some none
+      | "CLOSED" => some (some IType.closed)
+      | "OPEN" => some (some IType.open_)
+      | "INFINITE" => some (some IType.infinite)
+      | _ => none
+    let value ← match v with
+      | .atom "none" => some none
+      | x => (parseVal x).map some
+    pure { value := value, itype := it }
+  | _ => none
+
+/-- an optional field: absent → `some none`, present and well-formed → `some (some x)`, malformed → `none` -/
+def optField {α} (fields : List Sexp) (key : String) (p : Sexp → Option α) : Option (Option α) :=
+  match Sexp.field? fields key with
+  | none => some none
+  | some [x] => (p x).map some
+  | some _ => none
+
+def parseScale : Sexp → Option Scale
+  | .list (.atom "scale" :: fields) => do
+    let lo ← optField fields "lo" parseLimit
+    let hi ← optField fields "hi" parseLimit
+    let inv ← optField fields "inv" parseVal
+    let const ← optField fields "const" parseVal
+    let coeffs ← match Sexp.field? fields "num" with
+      | none => some none
+      | some ns => do
+        let n ← ns.mapM fun x => x.asAtom?.bind parseRat
+        let d ← ((Sexp.field? fields "den").getD []).mapM fun x => x.asAtom?.bind parseRat
+        pure (some (n, d))
+    pure { lo := lo, hi := hi, inv := inv, const := const, coeffs := coeffs }
+  | _ => none
+
+def parseSide (fields : List Sexp) (key : String) : Option (Option Side) :=
+  match Sexp.field? fields key with
+  | none => some none
+  | some sub => do
+    let scs ← Sexp.field? sub "scales"
+    let scales ← scs.mapM parseScale
+    let dflt ← optField sub "default" parseVal
+    pure (some { scales := scales, default := dflt })
+
+def parseDesc (fields : List Sexp) : Option Desc := do
+  let cat ← (Sexp.field1? fields "cat").bind Sexp.asAtom? |>.bind parseCat
+  let ity ← (Sexp.field1? fields "ity").bind Sexp.asAtom? |>.bind parseDType
+  let pty ← (Sexp.field1? fields "pty").bind Sexp.asAtom? |>.bind parseDType
+  let i2p ← parseSide fields "i2p"
+  let p2i ← parseSide fields "p2i"
+  pure { cat := cat, ity := ity, pty := pty, i2p := i2p, p2i := p2i }
+
+def ratStr (q : Rat) : String := s!"{q.num}/{q.den}"
+
+def utf8Hex (s : String) : String := hexAtom (s.toUTF8.toList.map (·.toNat))
+
+def valStr : Val → String
+  | .int z => s!"(i {z})"
+  | .flt q => s!"(f {ratStr q})"
+  | .str s => s!"(s {utf8Hex s})"
+
+def errStr : Err → String
+  | .encode => "(err encode)"
+  | .decode => "(err decode)"
+  | .odx => "(err odx)"
+  | .foreign => "(err foreign)"
+
+def resVal : R Val → String
+  | .ok v => s!"(ok {valStr v})"
+  | .error e => errStr e
+
+def resBool : R Bool → String
+  | .ok true => "(ok t)"
+  | .ok false => "(ok f)"
+  | .error e => errStr e
+
+def runQuery (m : Method) : Sexp → String
+  | .list [.atom op, v] =>
+    match parseVal v with
+    | none => "(bad-val)"
+    | some x =>
+      match op with
+      | "i2p" => resVal (m.i2p x)
+      | "p2i" => resVal (m.p2i x)
+      | "vi" => resBool (m.validI x)
+      | "vp" => resBool (m.validP x)
+      | _ => "(bad-op)"
+  | _ => "(bad-query)"
+
+def handle (sx : Sexp) : String :=
+  match sx with
+  | .list (.atom "compu" :: fields) =>
+    match parseDesc fields, Sexp.field? fields "q" with
+    | some d, some qs =>
+      match build d with
+      | .error e => s!"(build {errStr e})"
+      | .ok m => s!"(r {" ".intercalate (qs.map (runQuery m))})"
+    | _, _ => "(bad-args)"
+  | _ => "(bad-op)"
+
+def main : IO Unit := driverMain handle
